@@ -21,7 +21,8 @@ CLAIMED = {
              "sequence of mutator/query calls because it constrains each mutator, not a sampled history; it decides the "
              "mechanism the property rests on, not value equality of resolved configurations."
              " The value stored in the cache is the value returned; component names are escaped in invalidation patterns; the guard pins ignore_convert_errors as well."
-         " A clear-then-refill of a stored object cannot fail between the clear and the invalidation.",
+         " A clear-then-refill of a stored object cannot fail between the clear and the invalidation."
+         " A mutator that creates a platform's variables leaves it with every scope the readers require.",
         technique="CFG-based flow-sensitive may-alias + effect analysis (write => invalidate), who-may-write, "
                   "cache-key coverage",
         design="3/C08"),
@@ -100,7 +101,8 @@ CLAIMED["C03"] = dict(
          "The variable scope a replica count is read from is a fresh copy per component (the merge helper mutates its first argument). "
          "Equality of the expanded dataflow with an independent expansion is not decided."
          " Every reference to a replicated producer is registered for rewriting (no other condition gates the registration)."
-         " The reference translation of a copy covers the whole component including its platform override; the path repeated after an aggregated reference accepts every name character (decided on the parsed pattern).",
+         " The reference translation of a copy covers the whole component including its platform override; the path repeated after an aggregated reference accepts every name character (decided on the parsed pattern)."
+         " A local memo in the replication functions is keyed by every argument that varies between iterations.",
     technique="substitution-site lint with pattern-shape analysis (SUB), format-string agreement, CFG edge-dominance",
     design="3/C03")
 CLAIMED["C05"] = dict(
@@ -126,7 +128,8 @@ CLAIMED["C10"] = dict(
          "outside the loop over the references); DataReference.resolve and resolveArguments keep no state between calls and the "
          ":output value returned is, on every path, read from the file in that call. The four str.replace sites that violated it were a genuine, reproduced defect and were repaired."
          " The registered value is assigned afresh on every path of the iteration; a relative spelling is registered only for the reference that owns it (decided order-independently before the loop) and next to the absolute one; the final fill-in over inserted values is a recorded known finding."
-         " The table that decides who owns a relative spelling is order-independent in both of its forms (min with a key of the reference alone; incremental with a guard decided on its truth table).",
+         " The table that decides who owns a relative spelling is order-independent in both of its forms (min with a key of the reference alone; incremental with a guard decided on its truth table)."
+         " At most one substitution of the argument string lies on any path.",
     technique="substitution-site lint with pattern-shape analysis (SUB), local def-use of replacement values, CFG edge-dominance, "
               "non-local effect analysis (STATE), reaching definitions",
     design="3/C10")
@@ -190,7 +193,8 @@ CLAIMED["C09"] = dict(
          "(os.pathsep only on environment values), and no stage index for absolute paths. Round-trip and idempotence "
          "equalities over all strings are not decided."
          " Reserved-folder collections are decided by a must-inclusion analysis on every path (INCL engine) and the class-level reserved collections are never mutated in place (alias-aware)."
-         " Regex alternations over the reference methods try the longer of two methods sharing a prefix first.",
+         " Regex alternations over the reference methods try the longer of two methods sharing a prefix first."
+         " A reference is compared with the reserved names segment-wise, never as a text prefix.",
     technique="format/split constant agreement, finite truth tables of classifier predicates (sibling cross-check), "
               "CFG edge-dominance",
     design="3/C09")
